@@ -13,6 +13,18 @@ CHECKS = {
    text="(0 faults) explicit-state BFS to depth 2 (quick) / 3 (thorough) over histories of read-only computations (partial weights, interference weights, fit fractions old/new/no-grad, exhausted and abandoned factor iterations, density evaluations), override blocks with bodies and nested blocks, and persistent selection/parameter operations, on real AmplitudeModels (eager and tf.function); (1 fault) an exception at every amplitude-evaluation seam call / block body of every read-only operation from every state up to the fault depth. Post-condition after every execution: parameters bitwise, active chains, masks, factor masks, registry, and probe-event density through first-call, cached-call and new-object paths equal those of a reference world that executed only the persistent operations.",
    note="Faults are Python exceptions at amplitude evaluation seams and block bodies; a failing restore assignment is not injected. Three-body decay groups only (thorough adds a second resonance per slot and a spin-1 final particle).",
    technique="deviation-bounded fault enumeration + explicit-state BFS on the implementation with a differential reference world"),
+ "C12": dict(level="exploration", ref="4-C12",
+   text="Exhaustive over all (j,m,m') with 2j<=8 on a beta lattice that (by the polynomial-degree argument) decides the small-d identity for every angle; D-matrix values, unitarity and the group law on Euler lattices; every Clebsch-Gordan label with j<=4 (quick: half-integer labels up to 5/2) against Racah's formula in exact rationals, table agreement wherever the table has an entry; SU(2) Euler-angle extraction on rotations (incl. beta=0,pi) and Wigner rotations of rotation-boost products.",
+   note="float64; 1e-12 absolute on O(1) values (1e-7 for Euler extraction at beta=0,pi where acos is ill-conditioned). References: mpmath factorial sum, exact Racah.",
+   technique="bounded-exhaustive enumeration of quantum-number labels x angle lattices against exact reference formulas"),
+ "C13": dict(level="exploration", ref="4-C13",
+   text="Exhaustive over all spin triples up to 4 with consistent fermion number x 8 parities x p_break x C-parity: offered (l,s) list equals the reference triangle/parity enumeration, each once; for all triples up to 2 (quick) / 5/2 (thorough): rank of the coupling->helicity map = number of couplings = number of independent helicity amplitudes, parity relation of the matrix, l_list / ls_list restrictions.",
+   note="Reference rules re-derived in the harness; cg_coef memoised per worker with a pass-through self-test.",
+   technique="exhaustive enumeration of spin-parity assignments against a reference rule enumeration + linear-algebra rank"),
+ "C14": dict(level="exploration", ref="4-C14",
+   text="Exhaustive: every topology for n=2..6 (thorough 7) final particles (count (2n-3)!!, binary tree over exactly the finals, pairwise different, bijection with an independent enumeration, topology_id bijection, all ordered pairs of topology_same for n<=5 (6), sorted-table round trip); every decay group of <=3 chains (+1 renamed duplicate) from the 3 and 15 three-/four-body chains with renamed intermediates and with identical-particle names: class count, unique assignment, mother-daughter preserving maps.",
+   note="Groupings are computed by the harness' own traversal; reference enumeration by recursive bipartition.",
+   technique="exhaustive enumeration of labelled binary trees and small decay groups with a reference enumerator"),
 }
 
 NA_REASON = "check not built yet in this round (planned in DESIGN.md section 4)"
